@@ -67,6 +67,18 @@ let handle line =
       (match lex_tq TQ0 (str_of_tok s) with Some r -> "SOME\t" ^ tok_of_str r | None -> "NONE")
   | ["docenc"; s] -> tok_of_str (doc_enc P0 (str_of_tok s))
   | ["rawsafe"; s] -> if raw_safe regex_table false (str_of_tok s) then "1" else "0"
+  | ["rel"; cur; rp; name] ->
+      (match relative (str_of_tok cur) (str_of_tok rp) (n_of_int (int_of_string name)) with
+       | None -> "NONE"
+       | Some i -> Printf.sprintf "%d\t%s\t%d" (int_of_nat i.i_dots) (tok_of_str i.i_extra) (int_of_n i.i_right))
+  | ["wr"; ex; base; init; cur; rp; name] ->
+      let cur = str_of_tok cur and rp = str_of_tok rp in
+      (match written (bool_of_tok ex) (bool_of_tok base) (bool_of_tok init) cur rp (n_of_int (int_of_string name)) with
+       | None -> "NONE"
+       | Some (i, use) ->
+           let r = (match resolve_use (package_of (bool_of_tok init) cur) (i, use) with
+                    | None -> "BEYOND" | Some t -> tok_of_str t) in
+           Printf.sprintf "%d\t%s\t%d\t%s\t%s" (int_of_nat i.i_dots) (tok_of_str i.i_extra) (int_of_n i.i_right) (tok_of_str use) r)
   | ["c2s"; s] -> tok_of_str (camel_to_snake u0 (str_of_tok s))
   | ["s2uc"; d; s] -> tok_of_str (s2uc u0 (n_of_int (int_of_string d)) (str_of_tok s))
   | _ -> "BADREQ"
